@@ -11,10 +11,8 @@ carrier and every deviation-flag setting unless stated otherwise:
                              derive exactly the printed value in the left-recursive CSS calc grammar
                              (`Parses`), for values without a same-precedence right operand of `+`/`*`
 NOT proved (kept visible): (1) unambiguity of the grammar `Parses` / an executable reader with
-`read (toks v) = some v`; (2) `printV spec showQ v = render (toksV v)` (the character text is the
-concatenation of the token texts, operators written ` op `) — `toksV` was written line by line
-after `printV`, the equation is true by inspection but its proof got stuck on auxiliary-matcher
-mismatches; (3) right operands of `+`/`*` of the same precedence class (`a + (b + c)` is printed
+`read (toks v) = some v`; (2) [now PROVED: `print_eq_render`, `calc_text_is_rendered_shape`];
+(3) right operands of `+`/`*` of the same precedence class (`a + (b + c)` is printed
 `a + b + c`, equal in value, another tree).  All three are covered per generated case by the
 reference reader in props/C30.py.  The refutations below show the round trip is false for the
 code before the binop repairs.
@@ -23,6 +21,7 @@ import RsassModel.Calc.Model
 import RsassModel.Calc.Lemmas
 import RsassModel.Calc.IntInst
 import RsassModel.Calc.LemmasRead
+import RsassModel.Calc.LemmasRender
 namespace Calc
 open MathFn
 
@@ -199,6 +198,30 @@ theorem calc_structure_preserved_text (showQ : Q α → String) (t : T α)
     evalC spec showQ t = .ok (shape t) ∧
     Parses (vprec (shape t)) (toksV (shape t)) (signNorm (shape t)) :=
   ⟨calc_structure_preserved showQ t h, print_parses (shape t) (wfV_shape t) ha⟩
+
+/-- FULL: the character text the specification printer produces is the concatenation of the
+token texts of `toksV` (operators written ` op `, parentheses tight) — so `print_parses` is a
+statement about the emitted characters, token boundaries being the white space around operators
+and the parentheses. -/
+theorem print_eq_render (showQ : Q α → String) (v : V α) :
+    printV spec showQ v = render showQ (toksV v) := by
+  induction v with
+  | num x => simp [toksV, render, tokText]
+  | var n => simp [toksV, render, tokText]
+  | ident s => simp [toksV, render, tokText]
+  | paren w ih => simp [toksV, render, render_append, tokText, printV, ih, String.append_assoc]
+  | bin op a b iha ihb =>
+    rw [printV_bin, toksV_bin, iha, ihb, leftStr_render, binStr_render showQ op b _ ihb]
+
+/-- FULL: the declaration value of an unsimplifiable calculation is `calc(` + the rendered tokens
+of the source tree without grouping parentheses + `)`. -/
+theorem calc_text_is_rendered_shape (showQ : Q α → String) (t : T α)
+    (h : pairFree t = true) (hn : isNumV (shape t) = false) :
+    calcText spec showQ t = "calc(" ++ render showQ (toksV (shape t)) ++ ")" := by
+  simp only [calcText, calc_structure_preserved showQ t h]
+  cases hs : shape t with
+  | num x => simp [hs, isNumV] at hn
+  | _ => simp only [← print_eq_render]
 
 /-- the hypotheses are satisfiable: `(var(--x) + 1px) * 2` -/
 example : assocFree (shape (.bin .mul (.paren (.bin .plus (.var 0) (.num (⟨1, .px⟩ : Q Int)))) (.num ⟨2, .none⟩))) = true := by
